@@ -25,6 +25,12 @@ void interval_move_without_properties(To_Boundary& to_lower, To_Info& to_info,
   PPL_USED(rl);
 }
 
+// Positive example for R12.7 (b): a bound copied between two intervals without its properties.
+template <typename ITV>
+void interval_bound_copied_without_properties(ITV& x, const ITV& y) {
+  x.lower() = y.lower();
+}
+
 // Positive example for R12.10: two bounds compared as plain numbers.
 template <typename ITV>
 bool interval_bounds_compared_without_properties(const ITV& x, const ITV& y) {
